@@ -202,7 +202,7 @@ func genC07(t *rapid.T) *Case {
 				}
 			}
 		}
-	}), 1, 18).Draw(t, "ops")
+	}), minHistory(t, 18), 18).Draw(t, "ops")
 	for _, ch := range chunks {
 		c.Ops = append(c.Ops, ch...)
 	}
